@@ -39,9 +39,10 @@ def annotations(ctx, s):
     ctx.rule("A1", "the type the converter looks up for an overriding column is supported: scalar rules declare float/int/bool/numpy.datetime64, whole-column rules and group ids numpy.ndarray[<one of them>]; the defining module does not postpone annotations")
     itf = repo.module("interface.py")
     conv = find_function(itf, "_convert_data_to_correct_types", "primary anchor")
-    txt = ast.unparse(conv)
-    if "get_args(func.__annotations__['return'])[0]" not in txt or "func.__annotations__['return']" not in txt:
-        raise AnalysisError("_convert_data_to_correct_types no longer reads the return annotation the modelled way; A1 needs a re-read")
+    uses_ann = any(isinstance(n, ast.Subscript) and isinstance(n.slice, ast.Constant) and n.slice.value == "return" and "__annotations__" in ast.unparse(n.value) for n in ast.walk(conv))
+    uses_args = any(isinstance(n, ast.Subscript) and isinstance(n.value, ast.Call) and ast.unparse(n.value.func) in ("get_args", "typing.get_args") and ast.unparse(n.slice) == "0" for n in ast.walk(conv))
+    if not (uses_ann and uses_args):
+        raise AnalysisError("_convert_data_to_correct_types no longer reads the return annotation (directly, or its first type argument) the modelled way; A1 needs a re-read")
     gt = repo.module("gettsim_typing.py")
     sup = {t for t in ("float", "int", "bool", "datetime64") if f"internal_type == {t}" in ast.unparse(gt.functions.get("convert_series_to_internal_type", ast.parse("0"))) or f"internal_type == np.{t}" in ast.unparse(gt.functions.get("convert_series_to_internal_type", ast.parse("0")))}
     if sup != {"float", "int", "bool", "datetime64"}:
@@ -112,19 +113,83 @@ def merge_and_split(ctx, repo):
     ctx.sample({"merge_order": order})
     if not ok:
         ctx.violation("M", "merge-order|" + "<".join(order), fl.loc(merged[0]), f"functions are merged in the order {order} (later wins); documented/modelled order is {want}: e.g. a derived time-unit node could replace a real rule of the same name, or a data column of another unit silently replace a rule")
-    # split by data_cols
-    split = [n for n in walk_own(fn) if isinstance(n, ast.If) and isinstance(n.test, ast.Compare) and len(n.test.ops) == 1 and isinstance(n.test.ops[0], ast.In) and ast.unparse(n.test.comparators[0]) == "data_cols"]
-    ok = len(split) == 1 and "functions_overridden" in ast.unparse(split[0].body[0]) and "functions_not_overridden" in ast.unparse(split[0].orelse[0]) if split and split[0].orelse else False
-    ctx.ob("M", ok=ok, distinct="split")
-    if not ok:
-        ctx.violation("M", "split", fl.loc(fn), "the split into overridden / not overridden functions is no longer `name in data_cols`")
+    # split by data_cols: (not overridden, overridden) returned; each populated exactly by `name (not) in data_cols`
+    from staticlib.guards import Dominance, atoms_and_eval
+
+    dom = Dominance(fn)
+    rets = [n for n in walk_own(fn) if isinstance(n, ast.Return) and isinstance(n.value, ast.Tuple) and len(n.value.elts) == 2 and all(isinstance(e, ast.Name) for e in n.value.elts)]
+    if len(rets) != 1:
+        raise AnalysisError("load_and_check_functions no longer returns the pair (not overridden, overridden)")
+    not_ov, ov = [e.id for e in rets[0].value.elts]
+
+    def member_atom(node):
+        if isinstance(node, ast.Compare) and len(node.ops) == 1 and isinstance(node.ops[0], ast.In) and ast.unparse(node.comparators[0]) == "data_cols":
+            return "IN_DATA"
+        return None
+
+    def population(var):
+        """list of condition lists under which an entry is put into `var`"""
+        out = []
+        for n in walk_own(fn):
+            if isinstance(n, ast.Assign) and isinstance(n.targets[0], ast.Name) and n.targets[0].id == var and isinstance(n.value, ast.DictComp):
+                out.append([(c, True) for g_ in n.value.generators for c in g_.ifs])
+            if isinstance(n, ast.Assign) and isinstance(n.targets[0], ast.Subscript) and isinstance(n.targets[0].value, ast.Name) and n.targets[0].value.id == var:
+                out.append(dom.of(n))
+        return out
+
+    oksplit = True
+    detail = ""
+    for var, want_in in ((ov, True), (not_ov, False)):
+        pops = population(var)
+        if not pops:
+            raise AnalysisError(f"load_and_check_functions: how `{var}` is populated is not recognised; M (split) needs a re-read")
+        for conds in pops:
+            names, conj = atoms_and_eval(conds, member_atom)
+            if names != ["IN_DATA"]:
+                oksplit = False
+                detail = f"`{var}` is populated under conditions other than membership in data_cols ({names})"
+                continue
+            for v in (False, True):
+                if conj({"IN_DATA": v}) != (v == want_in):
+                    oksplit = False
+                    detail = f"`{var}` receives a function whose name is {'in' if v else 'not in'} data_cols"
+    ctx.ob("M", ok=oksplit, distinct="split")
+    if not oksplit:
+        ctx.violation("M", "split", fl.loc(fn), "the split into overridden / not overridden functions is no longer exactly `name in data_cols`: " + detail)
+    # derived time-unit nodes are never created for names present in the data
     tc = repo.module("time_conversion.py")
     ct = find_function(tc, "create_time_conversion_functions", "primary anchor")
-    conds = [ast.unparse(c) for n in ast.walk(ct) if isinstance(n, ast.comprehension) for c in n.ifs]
-    ok = sum("not in data_cols" in c for c in conds) >= 2
-    ctx.ob("M", ok=ok, distinct="no-derived-for-data")
-    if not ok:
-        ctx.violation("M", "derived-over-data", tc.loc(ct), f"time conversions are created without excluding names present in the data ({conds}): a supplied column could be shadowed by a derived node")
+    domt = Dominance(ct)
+    rett = [n for n in walk_own(ct) if isinstance(n, ast.Return)]
+    resvars = {x.id for r_ in rett for x in ast.walk(r_.value) if isinstance(x, ast.Name)} if rett else set()
+    # locals merged into the result
+    for _ in range(2):
+        for n in walk_own(ct):
+            if isinstance(n, ast.Assign) and isinstance(n.targets[0], ast.Name) and n.targets[0].id in resvars:
+                resvars |= {x.id for x in ast.walk(n.value) if isinstance(x, ast.Name) and isinstance(ct, ast.FunctionDef)}
+    sites = []
+    for n in ast.walk(ct):
+        if isinstance(n, ast.DictComp) and any("_create_time_conversion_functions" in ast.unparse(g_.iter) for g_ in n.generators):
+            sites.append(domt.of(n) + [(c, True) for g_ in n.generators for c in g_.ifs])
+        if isinstance(n, ast.Assign) and isinstance(n.targets[0], ast.Subscript) and isinstance(n.targets[0].value, ast.Name) and n.targets[0].value.id in resvars:
+            sites.append(domt.of(n))
+    if not sites:
+        raise AnalysisError("create_time_conversion_functions: insertion sites of derived nodes not recognised; M needs a re-read")
+    bad_sites = 0
+    for conds in sites:
+        names, conj = atoms_and_eval(conds, member_atom)
+        import itertools as _it
+
+        for vals in _it.product([False, True], repeat=len(names)):
+            env = dict(zip(names, vals))
+            if env.get("IN_DATA") and conj(env):
+                bad_sites += 1
+                break
+        if "IN_DATA" not in names:
+            bad_sites += 1
+    ctx.ob("M", ok=bad_sites == 0, distinct="no-derived-for-data", n=len(sites))
+    if bad_sites:
+        ctx.violation("M", "derived-over-data", tc.loc(ct), f"{bad_sites} of {len(sites)} insertion sites create a derived time-unit node without excluding names present in the data: a supplied column could be shadowed by a derived node")
 
 
 def warn(ctx, repo):
